@@ -285,6 +285,7 @@ struct px_fix {
     int nerec;
     bool log_overflow;
     bool provide_upump_mgr;
+    struct ubuf_mgr *alt_ubuf_mgr; /* deferred providers: manager given for requests whose format is not a block format (not owned) */
     /* hook: called for every event before it is passed on (may be NULL) */
     int (*on_event)(struct px_fix *, struct upipe *, int event, va_list args);
     void *user;
@@ -503,7 +504,9 @@ static inline int px_provide_pending(struct px_fix *fx)
             urequest_provide_uclock(req, uclock_use(&fx->clock.uclock));
         else {
             struct uref *ff = req->uref ? uref_dup(req->uref) : NULL;
-            urequest_provide_ubuf_mgr(req, ubuf_mgr_use(fx->ubuf_mgr), ff);
+            const char *def = NULL;
+            bool block = req->uref == NULL || !ubase_check(uref_flow_get_def(req->uref, &def)) || !strncmp(def, "block.", 6);
+            urequest_provide_ubuf_mgr(req, ubuf_mgr_use(!block && fx->alt_ubuf_mgr ? fx->alt_ubuf_mgr : fx->ubuf_mgr), ff);
         }
     }
     return n;
